@@ -353,10 +353,16 @@ func Run(cfg Config) *hx.Result {
 		w := &worker{cfg: cfg, driver: cfg.Driver, servers: map[string]*builtServer{}, out: out}
 		for _, line := range cfg.Replay {
 			xs, err := hx.ParseLine(line)
-			if err != nil || len(xs) != 5 || xs[0].Atom != "route" {
+			switch {
+			case err == nil && len(xs) == 5 && xs[0].Atom == "route":
+				w.runCase(kase{srv: srvOfSexp(xs[3]), mount: xs[2].Atom, req: reqOfSexp(xs[4])})
+			case err == nil && len(xs) == 3 && xs[0].Atom == "route-spec": // a Lean-spec / Go-oracle disagreement
+				w.runCase(kase{srv: srvOfSexp(xs[1]), mount: "bare", req: reqOfSexp(xs[2])})
+			case err == nil && len(xs) == 3 && xs[0].Atom == "register":
+				runRegistrationSequence(cfg, out, srvOfSexp(xs[2]).regs)
+			default:
 				panic("c05: cannot replay " + line)
 			}
-			w.runCase(kase{srv: srvOfSexp(xs[3]), mount: xs[2].Atom, req: reqOfSexp(xs[4])})
 		}
 		return r
 	}
